@@ -311,6 +311,27 @@ def check(ctx):
         ctx.ob("taint.plaintext", tb, r.ast, off is None,
                "the plaintext reaches this return only through KeyFile.encrypt" if off is None else
                "the plaintext flows into the serialised value without encryption: %s" % ast.unparse(off)[:60], node=r)
+    # a non-empty secret is encrypted *now*: specialised for "the value is not empty", everything to_basic can return is the
+    # {method, ciphertext} record it builds from this call's encryption result -- not a record remembered from a load or an
+    # earlier save (the key file in force may have changed since)
+    from engine.specialize import Spec
+
+    def nonempty(e, node):
+        if isinstance(e, ast.Name) and e.id == vparam:
+            return True
+        if isinstance(e, ast.Compare) and len(e.ops) == 1 and isinstance(e.left, ast.Name) and e.left.id == vparam \
+                and isinstance(e.comparators[0], ast.Constant) and e.comparators[0].value in (None, ""):
+            return isinstance(e.ops[0], (ast.IsNot, ast.NotEq))
+        return None
+    spn = Spec(an, tb, nonempty)
+    for r in spn.normal_returns():
+        srcs = spn.sources(r.ast.value, r) if r.ast.value is not None else [("none", None)]
+        okd = bool(srcs) and all(k == "expr" and isinstance(pl, ast.Dict) for k, pl in srcs)
+        ctx.ob("encrypt.this-invocation", tb, r.ast, okd,
+               "what is written for a non-empty secret is the record built from this call's encryption" if okd else
+               "SecureField.to_basic can return %s for a non-empty secret: a record that was not produced by encrypting now (remembered "
+               "from a load or an earlier save) -- after the key file in force changes, the file is written with stale ciphertext and no "
+               "longer loads" % (ast.unparse(r.ast.value)[:50] if r.ast.value is not None else "None"), node=r)
     # non-empty secrets are encrypted: a dict return must carry the ciphertext of the encrypt result
     for r in rets:
         v = r.ast.value
